@@ -77,6 +77,15 @@ def run(chk):
                                 f'first {b} of side {apair} records {a.name} under its side and denomination',
                                 f'{b} by {a.name} with the slot empty: {why}', path=p.describe())
     chk.floor('C03.R1', 'first-to-name stores evaluated', n_store, 35 * 4)
+    # a refused call (ILLEGAL / raise) names nothing: the table is written on accepting paths only
+    chk.focus(None)
+    for p in B.illegal + B.raising:
+        stores = [e for e in p.events if e.kind in ('store', 'aug', 'assign') and e.target == r.table]
+        chk.require(not stores, 'C03.R1', B.repo.where(B.mod, stores[0].node) if stores else B.where, B.qual,
+                    (f'`{ast.unparse(stores[0].node)[:60]}` on a refused call' if stores else f'refused path {p.describe()[-40:]}'),
+                    'a refused call does not touch the first-to-name table',
+                    f'`{ast.unparse(stores[0].node)[:80] if stores else ""}` is executed on a path that ends {B.kinds[id(p)]}: an insufficient or repeated bid that is '
+                    f'REFUSED still registers its denomination for the side, so a partner who later names it legally is not the declarer', path=p.describe())
     # non-bids leave last bid / bidder alone
     for b in B.bids[nb - 3:]:
         pe = B.evaluator({'bid': b, 'slot': 1, 'active': B.players[0], 'last_bid': B.bids[3], 'last_bidder': B.players[2]})
